@@ -276,13 +276,13 @@ def isar_case(t, sp, style, rng, bytes_via="patch"):
             "order": [x(p) for p in sp["order"]], "single": xml, "single_name": "single.xml", "patch": patch, "uses": None}
 
 
-# PENDING-FINDING (unchanged tree): prophyc.patch.patch() looks up every top-level node of a file by name, Include
+# FIXED (4304ff8; was a pending finding): prophyc.patch.patch() looked up every top-level node of a file by name, Include
 # nodes too. An isar include is named by its href without the extension, so with `--patch` a rule for struct X aborts
 # the compilation of every file that holds <xi:include href="X.xml"/> ("Can change field only in struct: X ..."),
 # while the single file compiles. Exactly this input class — isar, a patch rule whose node name equals the name of an
 # Include node — is left out of the generated cases while PENDING_EXCLUDE is set: the xml is printed again with
 # bytes_via="direct" (no `type .. byte` rules); if rules for such a name remain, the isar twin of the split is skipped.
-PENDING_EXCLUDE = True
+PENDING_EXCLUDE = False     # repaired in /repo by 4304ff8: the input class is generated and checked again
 
 
 def patch_include_clash(case):
